@@ -37,6 +37,9 @@ def wire(rng, classes, u, v, position, counter):
     """Make class u depend on class v through `position` (by mutation, so cycles are possible)."""
     U, V = classes[u], classes[v]
     key = f"e{counter}"
+    plain = position.startswith("plain:")      # same key for every such edge, no extras: lets two classes have identical bodies
+    if plain:
+        position, key = position[6:], "k"
     if position == "property":
         U.properties[key] = Property(V)
     elif position == "items":
@@ -72,6 +75,8 @@ def wire(rng, classes, u, v, position, counter):
         U.properties[key] = Property(Array(AnyOf(Element(properties={"z": Property(Not(Array([V])))}), Element())))
     # a JSON property may be *named* like the keyword the dependency sits under: the traversal must still read the keyword
     # (decided by the edge's number, not by the PRNG, so that a recorded graph replays exactly)
+    if plain:
+        return
     if position in ("patternProperties", "additionalProperties", "propertyNames", "dependencies") and counter % 2 == 0:
         U.properties[position] = Property(Element())
     elif counter % 7 == 3:
@@ -279,6 +284,11 @@ def run(ctx, scale=1.0):
         for n, edges, roots in shapes:
             for pos in POSITIONS:
                 check_graph(drv, n, edges, [pos] * len(edges), roots, out, stats, rng)
+        # two differently named classes with identical bodies, each the only way to a class of its own
+        for pos in POSITIONS:
+            check_graph(drv, 5, [(0, 1), (0, 2), (1, 3), (2, 4)], ["property", "property", "plain:" + pos, "plain:" + pos], [0], out, stats, rng)
+            check_graph(drv, 7, [(0, 1), (0, 2), (1, 3), (2, 4), (3, 5), (4, 6)],
+                        ["items", "contains", "plain:" + pos, "plain:" + pos, "plain:" + pos, "plain:" + pos], [0], out, stats, rng)
         if ctx["tier"] == "thorough":
             import itertools
             for n in (1, 2, 3):
